@@ -97,30 +97,4 @@ void h_binvrow_row(void)
    CANARY();
 }
 #endif
-
-#ifdef INST_MULTT_ROW
-int w_multt_row(R* vec, int unscale, int n, int nc, int isScaled, int* rowexp, int* colexp, R* s1, int* bind, R* dsv, int* dsi)
-__CPROVER_requires(0 < n && n <= CAP && 0 < nc && nc <= CAP && g_n == n && g_nc == nc)
-__CPROVER_requires(__CPROVER_is_fresh(vec, n * sizeof(R)) && __CPROVER_is_fresh(rowexp, n * sizeof(int)) && __CPROVER_is_fresh(colexp, nc * sizeof(int)))
-__CPROVER_requires(__CPROVER_is_fresh(s1, n * sizeof(R)) && __CPROVER_is_fresh(bind, n * sizeof(int)))
-__CPROVER_requires(__CPROVER_is_fresh(dsv, n * sizeof(R)) && __CPROVER_is_fresh(dsi, n * sizeof(int)))
-__CPROVER_requires(0 <= g_p && g_p < n && v_bind == bind[g_p] && v_bind > -2147483647)
-__CPROVER_requires(g_scale == (SCALE ? 1 : 0))
-GHOST_ASSIGNS
-__CPROVER_assigns(__CPROVER_object_whole(vec), __CPROVER_object_whole(s1), __CPROVER_object_whole(dsv), __CPROVER_object_whole(dsi))
-__CPROVER_ensures(__CPROVER_return_value == 1)
-__CPROVER_ensures(g_getbind_calls == 1 && g_bind_ok && g_alloc_calls == 1 && g_free_calls == 1)
-/* component g_p of the result is ONE dot product of (the copy of) the input vector with column g_p of B */
-__CPROVER_ensures(g_dot_calls_p == 1 && g_dot_x_ok && vec[g_p] == v_dot)
-__CPROVER_ensures(v_bind < 0 ==> (g_dot_kind == V_UNIT && g_dot_src == -1 - v_bind))
-__CPROVER_ensures(v_bind >= 0 ==> (g_dot_kind == (SCALE ? V_LPCOL_UNSCALED : V_LPCOL) && g_dot_src == v_bind))
-;
-void h_multt_row(void)
-{
-   R* vec; int unscale, n, nc, isScaled; int* rowexp; int* colexp; R* s1; int* bind; R* dsv; int* dsi;
-   g_n = nondet_int(); g_nc = nondet_int(); g_p = nondet_int(); v_bind = nondet_int(); g_scale = nondet_int();
-   K_UNIT = V_UNIT; K_LPCOL = V_LPCOL; K_LPCOL_UNSCALED = V_LPCOL_UNSCALED;
-   w_multt_row(vec, unscale, n, nc, isScaled, rowexp, colexp, s1, bind, dsv, dsi);
-   CANARY();
-}
-#endif
+/* (multBasisTranspose_row: contract_dense.c) */
